@@ -19,7 +19,7 @@ from ..framework import Prop, generic_shrink_list
 CI_CTX = 'ci-test'
 RAW_STATES = ['PENDING', 'EXPECTED', 'ACTION_REQUIRED', 'STALE', 'FAILURE', 'ERROR', 'TIMED_OUT', 'CANCELLED', 'STARTUP_FAILURE', 'SKIPPED',
               'SUCCESS', 'NEUTRAL']
-RAW_CLASS = {**{s: 'pending' for s in RAW_STATES[:4]}, **{s: 'failure' for s in RAW_STATES[4:10]}, **{s: 'success' for s in RAW_STATES[10:]}}
+RAW_CLASS = {'NULL': 'pending', **{s: 'pending' for s in RAW_STATES[:4]}, **{s: 'failure' for s in RAW_STATES[4:10]}, **{s: 'success' for s in RAW_STATES[10:]}}
 DECISIONS = ['APPROVED', 'CHANGES_REQUESTED', 'REVIEW_REQUIRED', 'NONE', 'OTHER']
 LABEL_NAMES = ['prio:high', 'WIP', 'stacked PR', 'do-not-test', 'bug']
 REPO = 'hail-is/hail'
@@ -132,7 +132,9 @@ class FakeGH:
             page = ctxs[start:start + 10]
             nodes = []
             for name, (req, raw, typename) in page:
-                if typename == 'StatusContext':
+                if raw == 'NULL':        # a check run that is queued / in progress has no conclusion yet
+                    nodes.append({'__typename': 'CheckRun', 'name': name, 'status': 'IN_PROGRESS', 'conclusion': None, 'isRequired': req})
+                elif typename == 'StatusContext':
                     nodes.append({'__typename': 'StatusContext', 'context': name, 'state': raw, 'isRequired': req})
                 else:
                     nodes.append({'__typename': 'CheckRun', 'name': name, 'conclusion': raw, 'isRequired': req})
@@ -432,6 +434,28 @@ class History:
                 self.failed_refresh_times.append(refresh_start)
                 self.tags.append('fault:refresh')
                 self.ghfail_pending = 'ghfail'      # dumped once the exception has passed through `_update` (which restores the flag)
+              elif self.refresh_raised and r.get('gq_order') and 'graphql_failed' not in r:
+                # the status loop of the last queried PR raised (`github_status(None)`: a required check run without conclusion): the
+                # model decides that itself from the answers (`raisesAt`), so it gets the ordinary `gh` line with what was answered so far
+                listing = r.get('listing', [])
+                j = len(r['gq_order']) - 1
+                parts = [f"gh {r.get('target', 0)} {len(listing)}"]
+                self.last_seen_target = r.get('target')
+                old_seen, self.last_seen = self.last_seen, {}
+                for i, (n, head, auth, labels) in enumerate(listing):
+                    gq = r.get('graphql', {}).get(n, {'decision': 'NONE', 'checks': []}) if i <= j else {'decision': 'NONE', 'checks': []}
+                    parts.append(f"{n} {head} {1 if auth else 0} {''.join('1' if x else '0' for x in labels)} {gq['decision']} {len(gq['checks'])}")
+                    parts += [f"{c} {1 if req else 0} {raw}" for (c, req, raw) in gq['checks']]
+                    o = old_seen.get(n)
+                    keep = o is not None and o['head'] == head
+                    if i < j:
+                        self.last_seen[n] = {'head': head, 'labels': labels, 'decision': gq['decision'], 'checks': gq['checks']}
+                    else:
+                        self.last_seen[n] = {'head': head, 'labels': labels, 'decision': gq['decision'] if i == j else (o['decision'] if keep else 'NONE'),
+                                             'checks': o['checks'] if keep else []}
+                self.failed_refresh_times.append(refresh_start)
+                self.tags.append('refresh-raised:null-conclusion')
+                self.ghfail_pending = ' '.join(parts)
               elif 'graphql_failed' in r and self.refresh_raised:
                 # aborted at the GraphQL query of the j-th PR: target sha and PR list taken over, the first j PRs refreshed
                 j = r['graphql_failed']
@@ -544,6 +568,8 @@ class History:
                 gh.prs[op[1]]['labels'] = [c == '1' for c in op[2]]
         elif t == 'status':
             _, n, ctx, required, raw, typename = op
+            if raw == 'NULL':
+                typename = 'CheckRun'
             if n in gh.prs:
                 gh.set_status(gh.prs[n]['head'], ctx_name(ctx), bool(required), raw, typename)
         elif t == 'target':
@@ -598,7 +624,7 @@ class History:
                 self.mid = [tuple(x) for x in (op[1] if len(op) > 1 else [])]
             try:
                 await f(self.db, self.bc, gh, False)
-            except (AssertionError, FaultInjected, self.g.gidgethub.HTTPException):
+            except (AssertionError, FaultInjected, ValueError, self.g.gidgethub.HTTPException):
                 pass      # what the webhook handler / update_loop see (logged, 500); the flags stay as the aborted pass left them
             if getattr(self, 'ghfail_pending', False):
                 line, self.ghfail_pending = self.ghfail_pending, False
@@ -712,6 +738,7 @@ class C30(Prop):
                    '"every reported check" is read as every REQUIRED check of the head commit (the code filters on isRequired) plus the CI\'s own status',
                    'review / label / required-check facts and the target branch commit are judged as GitHub last reported them to CI (CI polls; a push whose webhook has not arrived yet cannot be known to it)',
                    'list_batches(source_sha=…) returns exactly the ci test batches with that attribute, newest first',
+                   'a required check run without conclusion (queued / in progress) makes github_status(None) raise ValueError out of the refresh pass (the current behaviour of /repo; modelled as such: checksRaise / raisesAt)',
                    'GitHub facts CI was notified of (webhook delivered in an earlier pass, or as the entry of the pass) are judged against GitHub\'s ground truth of the delivery moment unless CI completed a refresh since; only changes whose webhook arrives during the running pass, or never, may be unknown to CI']
 
     def setup(self, repo):
@@ -834,7 +861,7 @@ class C30(Prop):
                 return ['labels', n, labels()]
             if r < 0.65 and n_ext:
                 ctx = rng.randint(1, n_ext)
-                return ['status', n, ctx, 0 if rng.random() < 0.2 else 1, rng.choice(['SUCCESS'] * 6 + RAW_STATES),
+                return ['status', n, ctx, 0 if rng.random() < 0.2 else 1, rng.choice(['SUCCESS'] * 6 + RAW_STATES + ['NULL']),
                         rng.choice(['StatusContext', 'CheckRun'])]
             if r < 0.72:
                 return ['target']
@@ -905,6 +932,22 @@ class C30(Prop):
             ops.append(['notify_batch', []])
         ops += [['notify_gh', []], ['done', 0, 1], ['notify_batch', []], ['update', []]]
         return {'ci_required': rng.random() < 0.7, 'ci_last': False, 'order_desc': False, 'ops': ops}
+
+    def gen_running_check(self, rng):
+        """everything about the PR is mergeable except that ANOTHER required check run on its head is still queued / in progress
+        (conclusion null); later it concludes"""
+        k = rng.choice([1, 1, 2])
+        ops = [['open', i, 500 + 10 * i, 1, '00000'] for i in range(1, k + 1)]
+        ops += [['review', i, 'APPROVED'] for i in range(1, k + 1)]
+        victim = rng.randint(1, k)
+        for c in range(1, rng.randint(1, 3) + 1):
+            ops.append(['status', victim, c, 1, 'SUCCESS', rng.choice(['StatusContext', 'CheckRun'])])
+        ops.append(['status', victim, 9, rng.choice([1, 1, 1, 0]), 'NULL', 'CheckRun'])
+        ops.append(['notify_gh', []])
+        ops += [['done', 0, 1] for _ in range(k)]
+        ops += [['notify_batch', []], ['notify_gh', []], ['update', []]]
+        ops += [['status', victim, 9, 1, rng.choice(['SUCCESS', 'SUCCESS', 'FAILURE']), 'CheckRun'], ['notify_gh', []], ['notify_batch', []], ['update', []]]
+        return {'ci_required': rng.random() < 0.7, 'ci_last': rng.random() < 0.3, 'order_desc': False, 'ops': ops}
 
     def gen_review_during_build(self, rng):
         """an approved PR whose up-to-date test batch is still running becomes unmergeable on GitHub (changes requested, review
@@ -996,6 +1039,8 @@ class C30(Prop):
                 yield self.gen_push_after_green(rng)
             elif i % 8 == 2:
                 yield self.gen_review_during_build(rng)
+            elif i % 8 == 4:
+                yield self.gen_running_check(rng)
             elif i % 8 == 5:
                 yield self.gen_mid_refresh(rng)
             elif i % 8 == 3:
